@@ -673,7 +673,7 @@ func run(t *testing.T, plan any, keep bool) *simcheck.Outcome {
 var harness = &simcheck.Harness{
 	Property: "C12",
 	Level:    "fault_enumeration",
-	Rule: "a scenario shape (contents of 0 bytes to 1.1 MB, 0-3 prior Puts, 0 hours to 400 days of simulated time between them and the target Put, target id/content, optional pre-damage of the target's output file (same size / shorter / longer / shorter with wrong bytes) or an output that was trimmed away while index entries still name it, PutBytes, Put or PutNoVerify of a chunking ReadSeeker with Len, optionally a healthy companion process storing the same content) is drawn by rapid; a fault-free dry run " +
+	Rule: "a scenario shape (contents of 0 bytes to 1.1 MB, 0-3 prior Puts, 0 hours to 400 days of simulated time between them and the target Put, target id/content, optional pre-damage of the target's output file (same size / shorter / longer / shorter with wrong bytes) or an output that was trimmed away while index entries still name it, PutBytes, Put or PutNoVerify of a chunking ReadSeeker with Len and Size, optionally a healthy companion process storing the same content) is drawn by rapid; a fault-free dry run " +
 		"counts the N file operations and M reader calls of the target Put; then one fault is injected (operation k fails / writes short and fails / process halts before / after / in the middle of it; " +
 		"or the reader fails to seek, fails mid-read, ends early, flips a byte in one pass or from one pass onward, grows in one pass, returns data with EOF; or the process halts before / after an operation while the source has changed and grown between the passes); after a failed reader Put the same handle fails again, stores the content under another id, and fails a Put of other content, or - thorough, a tenth of the shapes - the whole " +
 		"(operation x action), (halt x changed-and-grown source) and reader fault space (cut after 120 s of real time) of the shape is executed to completion; every attempt starts from the same rewound disk state; thorough adds a concurrent reader process; " +
